@@ -33,6 +33,39 @@ pub mod u256;
 pub mod unif;
 pub mod util;
 
+/// The harness's allocator counts, per thread, the bytes the code under test asks for: a deterministic measure of the work
+/// one analysis does (C03 compares it across program lengths; wall-clock time would depend on the machine's load).
+pub mod alloc_count {
+    use std::alloc::{GlobalAlloc, Layout, System};
+    use std::cell::Cell;
+    thread_local! { static BYTES: Cell<u64> = const { Cell::new(0) }; }
+    pub struct Counting;
+    unsafe impl GlobalAlloc for Counting {
+        unsafe fn alloc(&self, l: Layout) -> *mut u8 {
+            let _ = BYTES.try_with(|b| b.set(b.get().wrapping_add(l.size() as u64)));
+            System.alloc(l)
+        }
+        unsafe fn dealloc(&self, p: *mut u8, l: Layout) {
+            System.dealloc(p, l)
+        }
+        unsafe fn alloc_zeroed(&self, l: Layout) -> *mut u8 {
+            let _ = BYTES.try_with(|b| b.set(b.get().wrapping_add(l.size() as u64)));
+            System.alloc_zeroed(l)
+        }
+        unsafe fn realloc(&self, p: *mut u8, l: Layout, n: usize) -> *mut u8 {
+            let _ = BYTES.try_with(|b| b.set(b.get().wrapping_add(n.saturating_sub(l.size()) as u64)));
+            System.realloc(p, l, n)
+        }
+    }
+    /// Bytes requested by this thread so far.
+    pub fn bytes() -> u64 {
+        BYTES.with(|b| b.get())
+    }
+}
+
+#[global_allocator]
+static ALLOC: alloc_count::Counting = alloc_count::Counting;
+
 use infra::Check;
 
 pub fn registry() -> Vec<Box<dyn Check>> {
